@@ -20,7 +20,8 @@
 //!                 (the thread is abandoned: call std::process::exit at the end of main)
 //!             run_user_json(&Arc<CompassApp>, &user_json, override, timeout_ms) -> RunOutcome
 //!                 what the CLI does: `get_queries()` then `run`
-//!             call_watchdog(f, timeout_ms) -> Option<Result<T, String>>   the same for any closure
+//!             call_watchdog(f, timeout_ms) -> Option<Result<T, String>>   the same for any closure; also gives up
+//!                 (None) when the process grows by more than RUNAWAY_BYTES while waiting
 //!   recorder  Recorder / wrap_input_plugins(&CompassApp, idxs) -> (CompassApp', log)
 //!                 replaces chosen input plugins by recording proxies: every (input, result) pair of
 //!                 `process` is logged (the plugin is then an ORACLE for a model that treats it as opaque)
@@ -548,14 +549,38 @@ impl RunOutcome {
     }
 }
 
-/// runs `f` on its own thread under catch_unwind; None = no answer within `timeout_ms` (the thread is abandoned)
+/// resident set size of this process in bytes (Linux), 0 when unknown
+pub fn rss_bytes() -> u64 {
+    std::fs::read_to_string("/proc/self/statm")
+        .ok()
+        .and_then(|s| s.split_whitespace().nth(1).and_then(|x| x.parse::<u64>().ok()))
+        .map(|pages| pages * 4096)
+        .unwrap_or(0)
+}
+/// memory the watched call may add to the process before it is declared runaway (a call that "runs without
+/// bound" usually also allocates without bound: do not wait for the whole timeout then)
+pub const RUNAWAY_BYTES: u64 = 1 << 31;
+/// runs `f` on its own thread under catch_unwind; None = no answer within `timeout_ms`, or the process grew by
+/// more than RUNAWAY_BYTES while waiting (the thread is abandoned: finish quickly and exit the process)
 pub fn call_watchdog<T: Send + 'static>(f: impl FnOnce() -> T + Send + 'static, timeout_ms: u64) -> Option<Result<T, String>> {
     let (tx, rx) = mpsc::channel();
+    let base = rss_bytes();
     let _ = std::thread::Builder::new().stack_size(64 << 20).spawn(move || {
         let r = catch(std::panic::AssertUnwindSafe(f));
         let _ = tx.send(r);
     });
-    rx.recv_timeout(std::time::Duration::from_millis(timeout_ms)).ok()
+    let start = std::time::Instant::now();
+    loop {
+        match rx.recv_timeout(std::time::Duration::from_millis(25)) {
+            Ok(r) => return Some(r),
+            Err(mpsc::RecvTimeoutError::Disconnected) => return None,
+            Err(mpsc::RecvTimeoutError::Timeout) => {
+                if start.elapsed().as_millis() as u64 >= timeout_ms || rss_bytes().saturating_sub(base) > RUNAWAY_BYTES {
+                    return None;
+                }
+            }
+        }
+    }
 }
 
 pub fn run_watchdog(app: &Arc<CompassApp>, queries: Vec<Value>, config_override: Option<Value>, timeout_ms: u64) -> RunOutcome {
